@@ -106,6 +106,15 @@ def _aliased(fn, b, key):
     changed in place (argument aliasing, used.grown_list); otherwise a fresh list"""
     if b and used.sel("alias", [key], 2):
         return used.grown_list(fn, b, first=(b[:1] if len(b) > 1 else []))
+    # the basis in one of the forms a caller may hand over (the signatures say Iterable[Perm]): a list, a tuple, a
+    # one-shot iterator, a generator
+    k = used.digest("basis-form", [key]) % 4
+    if k == 0:
+        return fn(tuple(b))
+    if k == 1:
+        return fn(iter(list(b)))
+    if k == 2:
+        return fn(q for q in list(b))
     return fn(list(b))
 
 
